@@ -30,6 +30,7 @@ import topo  # noqa: E402
 import seqops  # noqa: E402
 import rcscn  # noqa: E402
 from tools.gen import thread as gen_thread  # noqa: E402
+from tools.gen import threadlock as gen_threadlock  # noqa: E402
 
 THEOREMS = [
     "JanetModel.Props.C08.exactly_once",
@@ -68,6 +69,8 @@ THEOREMS = [
     "JanetModel.Props.C08.shared_never_stranded",
     "JanetModel.Props.C08.stranded_counterexample",
     "JanetModel.Props.C08.deinit_leak_counterexample",
+    "JanetModel.Props.C08.lock_paths_release_exactly_once",
+    "JanetModel.Props.C08.lock_discipline_counterexamples",
 ]
 CURRENT = [
     "JanetModel.Thread.Current.exactly_once_current",
@@ -84,6 +87,8 @@ CURRENT = [
     "JanetModel.Thread.Current.shared_never_stranded_current",
     "JanetModel.Thread.Current.lock_types_shape",
     "JanetModel.Thread.Current.locks_valid_while_reachable_current",
+    "JanetModel.Thread.Current.lock_discipline_current",
+    "JanetModel.Thread.Current.lock_paths_current",
 ]
 CORPUS = os.path.join(VERIF, "corpus", "C08")
 SAN_ENV = {"ASAN_OPTIONS": "detect_leaks=0:abort_on_error=0:verify_asan_link_order=0", "UBSAN_OPTIONS": "print_stacktrace=1",
@@ -158,6 +163,14 @@ def run(ctx, only_replay=None):
         ctx.gen("Thread.lean", gen_thread.render(facts))
     except ExtractError as e:
         broken.append("translator tools/gen/thread.py: %s" % e)
+        ctx.broken.append(broken[-1])
+    # statement trees of the functions that take / release the channel mutex (path-level lock certificate, checked in Lean)
+    lock_facts = None
+    try:
+        lock_facts = gen_threadlock.extract(ctx.build.tree)
+        ctx.gen("ThreadLock.lean", gen_threadlock.render(lock_facts))
+    except ExtractError as e:
+        broken.append("translator tools/gen/threadlock.py: %s" % e)
         ctx.broken.append(broken[-1])
     # ---------------------------------------------------------------- (B,C) obligations
     broken += ctx.obligations("JanetModel.Props.C08", THEOREMS)
@@ -380,12 +393,16 @@ def run(ctx, only_replay=None):
         "refcount_runs": rc_runs, "refcount_ops": rc_cov,
         "opseq": {"sequences": len(seqs), "compared_lines": corr_lines, "diffs": len(corr_diffs), "coverage": seq_cov},
         "source_flags": facts["flags"] if facts else None,
+        "lock_certificate": {fn: st for fn, _, _, st in lock_facts["progs"]} if lock_facts else None,
+        "lock_users_outside_certificate": lock_facts["outside"] if lock_facts else None,
         "sched_point_hook_present": bool(facts and facts.get("hook_present")),
     }
     return ctx.finish("proof", cov, assumptions=[
         "message protocol: proved for the Lean model (all interleavings of atomic critical sections); the model is tied to ev.c by regenerated shape "
         "flags (tools/gen/thread.py) and by step-by-step correspondence on single-loop op sequences",
-        "data races / memory errors: tested only (TSan, ASan+UBSan builds over the generated topologies), not proved",
+        "data races / memory errors: tested only (TSan, ASan+UBSan builds over the generated topologies), not proved; the lock DISCIPLINE "
+        "(every path of the ten single-channel functions releases the mutex exactly once, queues touched only under it) is certified in Lean "
+        "on regenerated statement trees; ev/select's multi-lock scan (cfun_channel_choice) is outside that certificate",
         "per_sender_order is proved only in the absence of abandoned waits (per_sender_order_partial); with abandoned waits it is false on the "
         "implementation as well (known finding reorder-stale-reader)",
         "OS scheduling is perturbed (LD_PRELOAD shim at pthread_mutex_lock / write) but not enumerated",
